@@ -11,6 +11,8 @@ CONSTANTS
   ArrFns = {"concatenate","where","clip","copyto_where"}
   UfOps = {"add","subtract","less","equal","maximum","hypot","divmod"}
   SpUnits = {}
+  Hists = {}
+  HUnits = {}
 INIT Init
 NEXT TNext
 INVARIANT Export
